@@ -299,6 +299,12 @@ func (w *PollWorker) Process(mesg *aio.Message) {
 		return
 	}
 
+	if data == nil {
+		// the stored address is the json value null
+		mesg.Done(false, fmt.Errorf("invalid poll address %s", mesg.Data))
+		return
+	}
+
 	// check if we have a connection
 	conn, ok := w.connections.get(data.Group, data.Id)
 	if !ok {
